@@ -30,20 +30,20 @@ class FakeStreamSock:
 
     # --- peer side
     def deliver(self, data, delay=0.0):
-        s = schedx._sched
-        now = s.now if s else schedx.vtime()
-        ready = now + delay
-        if self.inbox and self.inbox[-1][0] > ready:
-            ready = self.inbox[-1][0]          # a stream does not reorder
-        self.inbox.append([ready, bytes(data)])
+        """the peer sends `data` at virtual time now + delay (data sent later arrives later; equal times keep call order)"""
+        self._insert(delay, bytes(data))
 
     def peer_close(self, delay=0.0):
+        self._insert(delay, None)
+
+    def _insert(self, delay, item):
         s = schedx._sched
         now = s.now if s else schedx.vtime()
         ready = now + delay
-        if self.inbox and self.inbox[-1][0] > ready:
-            ready = self.inbox[-1][0]
-        self.inbox.append([ready, None])
+        k = len(self.inbox)
+        while k > 0 and self.inbox[k - 1][0] > ready:
+            k -= 1
+        self.inbox.insert(k, [ready, item])
 
     # --- client side (socket API)
     def settimeout(self, t):
